@@ -221,20 +221,51 @@ Final ==
                 ELSE IF ~MapAllowed(rec.map, allowed) THEN V("C20", "after the fault and a restart a key reads a value it should not have")
                 ELSE IF FALSE THEN V("C20", "unreported")
                 ELSE OK
+    \* hint files stay an accelerator after a failed operation: the same directory without them reads the same
+    /\ bad2' = LET r == Rec[l] IN
+                IF ~Has(r, "rec_nohint") \/ ~r.rec.opened THEN OK
+                ELSE IF ~r.rec_nohint.opened THEN V("C12", "after a failed operation the directory cannot be opened without its hint files: " \o r.rec_nohint.err)
+                ELSE IF \E k \in Keys : r.rec_nohint.map[k] # r.rec.map[k]
+                       THEN V("C12", "after a failed operation, recovery without hint files reads differently")
+                ELSE OK
+    /\ UNCHANGED <<mode, allowed, inflight, ever, mine, faulted>>
+
+\* (fault runs on configurations in which every file is eligible by its size) one more merge pass, without any
+\* fault, at the end of the run: the store must be exactly as large as its live data - whatever the failed call
+\* left behind (torn tails, abandoned files, outputs of a failed merge) is reclaimed
+LiveSize(gets) ==
+    LET ks == {k \in Keys : gets[k] \in DOMAIN Hdr.vals}
+    IN MapThenSumSet(LAMBDA k : 25 + Hdr.keys[k] + Hdr.vals[gets[k]], ks)
+FullMerge ==
+    /\ Rec[l].ev = "fullmerge"
+    /\ LET r == Rec[l] IN
+         bad' = IF r.res \in {"panic", "abort"} THEN V("C20", "a merge after the failed operation panicked")
+                ELSE IF r.res # "ok" THEN V("C20", "a merge fails although no system call failed during it (the store did not stay usable): " \o r.res)
+                ELSE IF \E k \in Keys : r.gets[k] \notin allowed[k] THEN V("C20", "a key reads a value it should not have")
+                ELSE IF r.size # LiveSize(r.gets)
+                       THEN V("C13", "after a failed operation a merge of every file leaves the store larger than its live data: what the failure left behind is never reclaimed")
+                ELSE OK
     /\ bad2' = OK
     /\ UNCHANGED <<mode, allowed, inflight, ever, mine, faulted>>
 
 Next == /\ l <= Len(Rec)
         /\ l' = l + 1
-        /\ (Reset \/ Inv \/ Sys \/ Probe \/ Ret \/ Final)
+        /\ (Reset \/ Inv \/ Sys \/ Probe \/ Ret \/ Final \/ FullMerge)
 Spec == Init /\ [][Next]_vars
 
 -----------------------------------------------------------------------------------------
 C01_NoFailureWithoutFault == bad.p # "C01"
 C03_CrashSafe == bad.p # "C03" /\ bad2.p # "C03"
 C09_PowerLossSafe == bad.p # "C09" /\ bad2.p # "C09"
-\* C12 in histories with a kill: whatever a crash left behind, hint files stay an accelerator
+\* C12 in histories with a kill or a failed call: whatever it left behind, hint files stay an accelerator
 C12_AfterCrash == bad2.p # "C12"
+\* C13 after a failed call (same process): a merge of every file reclaims what the failure left behind
+C13_AfterFault == bad.p # "C13"
+\* C01 / C02 in runs with a failed call: the reads of the running process and of the restarted store (the
+\* fault-containment verdicts that are about what a key reads)
+LiveWhys == {"delete misreports whether the key was present", "a key reads a value it should not have"}
+C01_UnderFaults == ~(bad.p = "C20" /\ bad.why \in LiveWhys)
+C02_UnderFaults == ~(bad.p = "C20" /\ bad.why = "after the fault and a restart a key reads a value it should not have")
 \* C05 for a merge pass that FAILS: it too leaves every key reading as before, now and after a restart
 \* (the fault-containment verdicts of runs whose failed call was issued by a merge)
 C05_FailedMergeKeeps == ~(bad.p = "C20" /\ faulted.fired /\ faulted.op = "merge")
